@@ -40,7 +40,13 @@ pub fn case_strategy() -> impl Strategy<Value = ScanCase> {
         any::<bool>(),
         prop_oneof![4 => 0u8..8, 2 => 25u8..40, 1 => 60u8..72],
         proptest::collection::vec(folder_edit(), 0..6),
-        proptest::collection::vec(folder_edit(), 0..6),
+        // the scan walks the server's log backwards in pages of 32 proofs: suffixes longer than
+        // one and two pages put the common ancestor on a later page
+        prop_oneof![
+            4 => proptest::collection::vec(folder_edit(), 0..6),
+            2 => proptest::collection::vec(folder_edit(), 30..40),
+            1 => proptest::collection::vec(folder_edit(), 62..72),
+        ],
     )
         .prop_map(|(cfg, server_db, prefix, a, b)| ScanCase { cfg, server_db, prefix, a, b })
 }
@@ -102,6 +108,10 @@ async fn run_case(c: &ScanCase, info: &mut CaseInfo) -> CheckResult {
     if !false_points.is_empty() {
         info.nontrivial = true;
         info.class("agreeing-leaf-after-divergence");
+    }
+    if rc.len() > common + 32 {
+        info.nontrivial = true;
+        info.class(if rc.len() > common + 64 { "ancestor-on-scan-page-3+" } else { "ancestor-on-scan-page-2" });
     }
     if lc.len() != rc.len() && common > 0 {
         info.nontrivial = true;
